@@ -177,22 +177,23 @@ ADD_TEXT = {
     "C04": " A small family of matches over types with an uninhabited component documents the open finding that the checker treats every type as inhabited.",
     "C05": " Float32 literals are judged against the decimal rounded once to Float32 (not through Float64): literals beyond Float64 and literals a hair off a Float32 midpoint are fixed cases.",
     "C06": " Random handle histories (open / read / write / flush / close over several files, every capability ever obtained reused at random) are checked against a model: closed capabilities stay closed whatever is opened later, open ones never share state, files hold the modelled bytes at the quiescent point.",
-    "C07": " A further strategy names annotated binders like a type alias used only in their own annotation, and 21 scope-extent probes require an Unbound error for occurrences outside the scope the rules give their would-be binder.",
+    "C07": " A further strategy names annotated binders like a type alias used only in their own annotation, and 21 scope-extent probes require an Unbound error for occurrences outside the scope the rules give their would-be binder. A generator writes one name several times in ONE pattern (six binding forms, random pattern shapes): the rightmost component wins, or a block reports the duplicate; never another occurrence.",
     "C08": " Blocks with 2-4 parameters annotated through alias chains defined in the same block are printed under many placements of the definitions; acceptance and the printed argument-to-parameter mapping must not depend on the placement.",
     "C09": " Companions may be symbolic links to a signature in another directory (with its own relative import and a decoy next to the link), also shared by two implementations.",
     "C10": " A trivia family decorates readable programs with hostile lexical trivia (multi-line comments whose continuation lines start with Unicode white space, tabs, form feeds, CR, BOM, missing final newline); a witness family re-runs every input that ever crashed the front end.",
     "C11": " A block comment still open at the end of the input counts as an irregular token, not as a comment.",
     "C12": " Workload families added: verbatim regions in context, text blocks attached to literal / doc annotations, strings with raw control and format characters and raw line breaks, nested directives, vertical re-breaking, redundant parentheses with a break inside; the CLI leg also feeds token-mutated unparseable files.",
-    "C13": " Verbatim regions (extent from the parser's spans) must occur byte for byte in the output; comment payloads include multi-line, non-ASCII and delimiter look-alike content.",
-    "C14": " Further canonical legs compare a source with the same source plus one redundant single-line parenthesis pair (where the policy drops them and the pair is not printed as a multi-line group) and with one pun spelling toggled, each variant confirmed to desugar identically.",
-    "C16": " Programs with several duplicate definitions, unbound names or missing arms at once, and random ill-formed grammar terms, target the order in which ambiguous diagnostics are chosen.",
-    "C17": " The quick tier also runs the allocator-identity race under Miri at four scheduler seeds.",
-    "C18": " Generated programs include comatch redexes inside thunks / continuations / fix bodies and existential packages.",
-    "C19": " Generated programs include destructuring binds that return one component, comatch redexes and existential packages.",
+    "C13": " Verbatim regions (extent from the parser's spans) must occur byte for byte in the output; comment payloads include multi-line, non-ASCII and delimiter look-alike content. Format directives that do not validate (misspelt, repeated, wrong argument shapes) surround payloads with comments: an inert directive must lose nothing.",
+    "C14": " Further canonical legs compare a source with the same source plus one redundant single-line parenthesis pair (where the policy drops them and the pair is not printed as a multi-line group) and with one pun spelling toggled, each variant confirmed to desugar identically. A CLI leg names several files in one `fmt --check` invocation and compares the listing and the exit status with the single-file verdicts.",
+    "C16": " Programs with several duplicate definitions, unbound names or missing arms at once, and random ill-formed grammar terms, target the order in which ambiguous diagnostics are chosen. Blocks with several recursive components through parameters are included.",
+    "C17": " The quick tier also runs the allocator-identity race under Miri at four scheduler seeds. A language-server leg drives the repository's cajun binary over stdio with seeded open / change / close / reopen histories on several documents (every text identifies itself by a unique symbol and a warning on a unique line; all messages stamped from one logical clock; pauses aimed at fractions of a measured analysis): answers never come from contents replaced before the request was sent, diagnostics never describe a text older than their version label, at quiescence answers and the last publication are those of the current contents (also for a root importing another open document), and the server neither dies nor stops answering. A pending-slot leg calls check_resolved with ten distinguishable programs on one long-lived session and on concurrent snapshots against fresh sessions.",
+    "C18": " Generated programs include comatch redexes inside thunks / continuations / fix bodies and existential packages. A shapes generator runs 24 binder / scrutinee / arm shapes over the repository's standard library (each accepted and run by the interpreter first) through the same monitors; matches with overlapping arms are generated.",
+    "C19": " Generated programs include destructuring binds that return one component, comatch redexes and existential packages. The lowering is run up to the first-order program only, so that matches the assembly stage refuses (nested patterns, catch-all arms, overlapping arms) are compared too; a layouts generator builds a product on one side of a type abstraction and takes it apart on the other (open finding: static product layout under polymorphism).",
     "C20": " Inside blocks, tuple literals taken apart by patterns with another grouping are generated on purpose.",
+    "C15": " A fifth of the histories contain unreadable files and symbolic links appearing (two open findings live there).",
 }
 TECHNIQUE = {
-    "C17": "concurrency stress monitor with sequential oracles over a logical-clock event log; delay injection through the guarded verif-hooks pause points; Miri (many seeds) on the allocator race in both tiers, ThreadSanitizer (-Zbuild-std) on the storm in the thorough tier",
+    "C17": "concurrency stress monitor with sequential oracles over a logical-clock event log; delay injection through the guarded verif-hooks pause points; black-box history monitor of the language server over stdio (unique value per write, logical clock, quiescence oracles); Miri (many seeds) on the allocator race in both tiers, ThreadSanitizer (-Zbuild-std) on the storm in the thorough tier",
     "C06": "contract monitor: every host role called through the public machine step against a reference model (text in Unicode scalars, I/O error continuations), random handle histories against a capability model, signature mutations through the real checker",
 }
 
